@@ -16,6 +16,7 @@ LT = 'concepts/lattices.py'
 LI = 'concepts/algorithms/lindig.py'
 CO = 'concepts/algorithms/common.py'
 FC = 'concepts/algorithms/fcbo.py'
+VZ = 'concepts/visualize.py'
 
 MUTANTS = [
     # (file, old, new, units, 'breaks'|'equivalent')
@@ -45,6 +46,34 @@ MUTANTS = [
     (CX, 'intent, extent = intent.doubleprime()', 'extent, intent = intent.doubleprime()', ['contexts.getitem'], 'breaks'),
     (CX, 'if it.prime() == extent:', 'if it.prime() & extent == extent:', ['contexts.minimize'], 'breaks'),
     (CX, "        if not extent:\n            yield intent\n            return", "        if not extent:\n            yield intent", ['contexts.minimize'], 'breaks'),
+    (LI, 'if extent & ~objects_and_add & minimal:', 'if extent & ~objects_and_add:', ['lindig.neighbors'], 'breaks'),
+    (LI, 'minimal &= ~add', 'minimal &= ~objects_and_add', ['lindig.neighbors'], 'equivalent'),
+    (LI, 'minimal &= ~add', 'pass', ['lindig.neighbors'], 'breaks'),
+    (LI, 'objects_and_add = objects | add', 'objects_and_add = add', ['lindig.neighbors'], 'breaks'),
+    (LI, 'yield extent, intent', 'yield intent, extent', ['lindig.neighbors'], 'breaks'),
+    (LI, 'minimal = ~objects', 'minimal = Objects.supremum', ['lindig.neighbors'], 'breaks'),
+    (LI, 'if extent & ~objects_and_add & minimal:', 'if extent & ~objects & minimal:', ['lindig.neighbors'], 'breaks'),
+    (LI, 'if extent & ~objects_and_add & minimal:', 'if extent & minimal & ~objects_and_add:', ['lindig.neighbors'], 'equivalent'),
+    (CO, 'if index > seen:', 'if index >= seen:', ['common.iterunion'], 'breaks'),
+    (CO, 'seen = index', 'pass', ['common.iterunion'], 'breaks'),
+    (CO, 'push((sortkey(c), c))', 'push((sortkey(concept), c))', ['common.iterunion'], 'breaks'),
+    (CO, 'for c in next_concepts(concept):', 'for c in next_concepts(concept)[:0]:', ['common.iterunion'], 'breaks'),
+    (CO, 'heap = [(sortkey(c), c) for c in concepts]', 'heap = [(sortkey(c), c) for c in concepts if sortkey(c)]', ['common.iterunion'], 'breaks'),
+    (CO, 'seen = -1', 'seen = 0', ['common.iterunion'], 'breaks'),
+    (CO, '            yield concept\n            for c in next_concepts(concept):\n                push((sortkey(c), c))',
+         '            for c in next_concepts(concept):\n                push((sortkey(c), c))\n            yield concept', ['common.iterunion'], 'equivalent'),
+    (VZ, 'if concept.objects:', 'if concept.properties:', ['visualize.lattice'], 'breaks'),
+    (VZ, 'headlabel=make_object_label(concept.objects)', 'headlabel=make_property_label(concept.objects)', ['visualize.lattice'], 'breaks'),
+    (VZ, 'taillabel=make_property_label(concept.properties)', 'taillabel=make_property_label(concept.objects)', ['visualize.lattice'], 'breaks'),
+    (VZ, "labelangle='270'", "labelangle='90'", ['visualize.lattice'], 'breaks'),
+    (VZ, 'dot.edges((name, node_name(c))', 'dot.edges((node_name(c), name)', ['visualize.lattice'], 'breaks'),
+    (VZ, 'sorted(concept.lower_neighbors, key=sortkey)', 'sorted(concept.lower_neighbors, key=sortkey)[1:]', ['visualize.lattice'], 'breaks'),
+    (VZ, '        dot.node(name)\n', '        dot.node(name)\n        if not concept.lower_neighbors:\n            continue\n', ['visualize.lattice'], 'breaks'),
+    (VZ, "NAME_GETTERS = [lambda c: f'c{c.index:d}']", "NAME_GETTERS = [lambda c: f'c{c.index + 1:d}']", ['visualize.lattice'], 'breaks'),
+    (VZ, 'if render or view:', 'if render:', ['visualize.lattice'], 'breaks'),
+    (VZ, 'sorted(concept.lower_neighbors, key=sortkey)', 'sorted(concept.lower_neighbors, key=lambda c: -c.index)', ['visualize.lattice'], 'equivalent'),
+    (CX, "and self.bools == other.bools)", "and self.bools == self.bools)", ['contexts.__eq__'], 'breaks'),
+    (CX, "return not self == other", "return self == other", ['contexts.__ne__'], 'breaks'),
 ]
 
 
